@@ -1,6 +1,6 @@
 import IoraModel.Lemmas.TpAll
 /-!
-# C09 — P6: the pool never registers more workers than `_maxSize` (given `initialSize ≤ maxSize`)
+# C09 — P6: the pool never registers more workers than `_maxSize` (the clamped value `Cfg.effMax`)
 
 The constructor spawns `initialSize` workers unconditionally; afterwards a worker is created only by a submitter that saw
 `_threads.size() < _maxSize` in the same critical section.  While the constructor runs nobody else can submit (no other
@@ -72,7 +72,7 @@ theorem transM_ctor (cfg : Cfg) (sh : Shared) (n t : Nat) (pc : MPc) (r : MRegs)
   | inCall c =>
     simp only [transM]
     cases hx : (callStep cfg sh n t c).2.1 <;> exact plain _ _ (by simp [ctorPc]) (by rfl)
-  | mYield => simp only [transM]; exact plain _ _ (stepMYield_nctor sh r) (by rfl)
+  | mYield => simp only [transM]; exact plain _ _ (stepMYield_nctor cfg sh r) (by rfl)
   | dInfU => simp only [transM]; exact plain _ _ (pollHead_nctor _ _ _) (by rfl)
   | pollZ k => simp only [transM]; exact plain _ _ (pollHead_nctor _ _ _) (by rfl)
   | p2Grace => simp only [transM]; exact plain _ _ (pollHead_nctor _ _ _) (by rfl)
@@ -87,8 +87,14 @@ theorem transM_ctor (cfg : Cfg) (sh : Shared) (n t : Nat) (pc : MPc) (r : MRegs)
     all_goals exact plain _ _ (by simp [ctorPc]) (by rfl)
   | sFlagUA =>
     simp only [transM]; split
-    · exact plain _ _ (dtorReturn_nctor { sh with owner := none } r) (by rfl)
-    · exact plain _ _ (shutdownReturn_nctor { sh with owner := none } r) (by rfl)
+    · exact plain _ _ (dtorEarly_nctor { sh with owner := none } r) (by rfl)
+    · split
+      · exact plain _ _ (shutdownReturn_nctor { sh with owner := none } r) (by rfl)
+      · exact plain _ _ (by simp [ctorPc]) (by rfl)
+  | sDoneZ =>
+    simp only [transM]; split
+    · exact plain _ _ (shutdownReturn_nctor sh r) (by rfl)
+    · exact plain _ _ (by simp [ctorPc]) (by rfl)
   | sBcast =>
     simp only [transM]; split
     · exact plain _ _ (by simp [ctorPc]) (by rfl)
@@ -151,13 +157,14 @@ theorem idle_not_atCreate (th : Thread) (h : idleW th = true) : atCreate th = fa
   | sub x => simp [idleW] at h
 
 structure SizeInv (cfg : Cfg) (s : St) : Prop where
-  size : ∀ th0, s.thr[0]? = some th0 → s.sh.threads.length + ctorRem th0 ≤ cfg.maxSize
+  size : ∀ th0, s.thr[0]? = some th0 → s.sh.threads.length + ctorRem th0 ≤ cfg.effMax
   cok : ∀ th0, s.thr[0]? = some th0 → ctorOk th0
-  room : ∀ (t : Nat) (th : Thread), s.thr[t]? = some th → atCreate th = true → s.sh.threads.length < cfg.maxSize
+  room : ∀ (t : Nat) (th : Thread), s.thr[t]? = some th → atCreate th = true → s.sh.threads.length < cfg.effMax
   quietCtor : ∀ th0, s.thr[0]? = some th0 → inCtor th0 = true →
       s.sh.tasks = [] ∧ s.sh.shutdown = false ∧ ∀ (t : Nat) (th : Thread), t ≠ 0 → s.thr[t]? = some th → idleW th = true
 
-theorem sizeInv_init (cfg : Cfg) (h : cfg.initialSize ≤ cfg.maxSize) : SizeInv cfg (init cfg) := by
+theorem sizeInv_init (cfg : Cfg) : SizeInv cfg (init cfg) := by
+  have h := effMax_init cfg
   refine ⟨?_, ?_, ?_, ?_⟩
   · intro th0 h0; simp [init] at h0; rw [← h0]; simpa [ctorRem, init] using h
   · intro th0 h0; simp [init] at h0; rw [← h0]; trivial
@@ -176,15 +183,9 @@ theorem sizeInv_init (cfg : Cfg) (h : cfg.initialSize ≤ cfg.maxSize) : SizeInv
 
 theorem holdsM_cC (r : MRegs) : holdsM (.main .cC r) = true := rfl
 
-theorem fresh_idle_or_sub (nt : Thread) (h : isFresh nt = true) : idleW nt = true ∨ ∃ sc, nt = .sub (.start sc) := by
-  cases nt with
-  | main pc r => simp [isFresh] at h
-  | sub x => cases x <;> simp [isFresh] at h; exact Or.inr ⟨_, rfl⟩
-  | worker w => cases w <;> simp [isFresh] at h; exact Or.inl rfl
-
 /-- how a step changes the length of `_threads` -/
 theorem stepEff_len (cfg : Cfg) (sh : Shared) (n t : Nat) (th : Thread) (alt : Nat) (sh' : Shared) (th' : Thread) (post : Post)
-    (h : StepEff cfg sh n t th alt sh' th' post) :
+    (h : StepEff cfg sh n t th alt sh' th' post) (hnr : restartTh th = false) :
     sh'.threads.length ≤ sh.threads.length ∨
     (sh'.threads.length = sh.threads.length + 1 ∧ (atCreate th = true ∨ ∃ r, th = .main .cC r)) := by
   cases h with
@@ -200,11 +201,12 @@ theorem stepEff_len (cfg : Cfg) (sh : Shared) (n t : Nat) (th : Thread) (alt : N
   | quiesce _ _ _ _ _ ht => left; rw [ht]; exact Nat.le_refl _
   | joined _ _ _ _ h => left; rw [h.threads]; exact Nat.le_refl _
   | setShut _ _ _ _ _ ht => left; rw [ht]; exact Nat.le_refl _
+  | restart hth => rw [hth] at hnr; cases hnr
 
 /-- a thread is about to create a worker after the step only if it was before, or it has just pushed with room left -/
 theorem stepEff_atCreate (cfg : Cfg) (sh : Shared) (n t : Nat) (th : Thread) (alt : Nat) (sh' : Shared) (th' : Thread) (post : Post)
-    (h : StepEff cfg sh n t th alt sh' th' post) (hc : atCreate th' = true) :
-    sh'.threads = sh.threads ∧ sh.threads.length < cfg.maxSize := by
+    (h : StepEff cfg sh n t th alt sh' th' post) (hnr : restartTh th = false) (hc : atCreate th' = true) :
+    sh'.threads = sh.threads ∧ sh.threads.length < cfg.effMax := by
   cases h with
   | quiet _ _ _ hc' => rw [hc'] at hc; cases hc
   | push _ _ _ h2 _ _ _ _ hc' =>
@@ -221,6 +223,7 @@ theorem stepEff_atCreate (cfg : Cfg) (sh : Shared) (n t : Nat) (th : Thread) (al
   | quiesce _ _ hw => rw [hw] at hc; simp [atCreate] at hc
   | joined _ _ _ hw => rw [hw] at hc; simp [atCreate] at hc
   | setShut _ _ hw => rw [hw] at hc; simp [atCreate] at hc
+  | restart hth => rw [hth] at hnr; cases hnr
 
 def isCCth : Thread → Nat
   | .main pc _ => isCC pc
@@ -239,7 +242,7 @@ theorem atCreate_not_cC (th : Thread) (h : atCreate th = true) : isCCth th = 0 :
 constructor bookkeeping (`hctor`) and to the "quiet during construction" clause (`hquiet`, proved from the concrete step) -/
 theorem sizeInv_of_eff (cfg : Cfg) (s : St) (sh' : Shared) (t : Tid) (th th' : Thread) (post : Post) (alt : Nat) (l : List Thread)
     (hI : SizeInv cfg s) (hmx : MutexOk s) (th0 : Thread) (h0 : s.thr[0]? = some th0) (hm0 : isMain th0 = true)
-    (hget : s.thr[t]? = some th)
+    (hget : s.thr[t]? = some th) (hnr : restartTh th = false)
     (hctor : t = 0 → ctorOk th' ∧ ctorRem th' + isCCth th ≤ ctorRem th)
     (hnm : t ≠ 0 → isCCth th = 0)
     (hquiet : ∀ th0', l[0]? = some th0' → inCtor th0' = true →
@@ -278,11 +281,11 @@ theorem sizeInv_of_eff (cfg : Cfg) (s : St) (sh' : Shared) (t : Tid) (th th' : T
         | worker x => simp [inCtor] at hic
       · have := idle_not_atCreate th (hidle t th e hget)
         rw [this] at hc; cases hc
-  have hlen := stepEff_len cfg s.sh s.thr.length t th alt sh' th' post heff
+  have hlen := stepEff_len cfg s.sh s.thr.length t th alt sh' th' post heff hnr
   refine ⟨?_, ?_, ?_, hquiet⟩
   · -- size
     intro th0' h0'
-    show sh'.threads.length + ctorRem th0' ≤ cfg.maxSize
+    show sh'.threads.length + ctorRem th0' ≤ cfg.effMax
     have hs := hI.size th0 h0
     rcases t0 th0' h0' with ⟨e, e2, e3⟩ | ⟨ne, e2⟩
     · -- the controller itself steps
@@ -315,13 +318,13 @@ theorem sizeInv_of_eff (cfg : Cfg) (s : St) (sh' : Shared) (t : Tid) (th th' : T
     intro j y hy hcy
     rcases hts.new j y hy with ⟨_, e2⟩ | ⟨ne, x, hx, hwf⟩ | ⟨nt, hnt, _, e2⟩
     · rw [e2] at hcy
-      have := stepEff_atCreate cfg s.sh s.thr.length t th alt sh' th' post heff hcy
-      show sh'.threads.length < cfg.maxSize
+      have := stepEff_atCreate cfg s.sh s.thr.length t th alt sh' th' post heff hnr hcy
+      show sh'.threads.length < cfg.effMax
       rw [this.1]; exact this.2
     · have hx' : atCreate x = true := by rw [← (wokeFrom_class hwf).2.2.2.1]; exact hcy
       have hr := hI.room j x hx hx'
       rcases hlen with hl | ⟨_, hcr⟩
-      · show sh'.threads.length < cfg.maxSize; omega
+      · show sh'.threads.length < cfg.effMax; omega
       · -- the creator holds the mutex, and so does `x`
         exfalso
         have hhx := hmx j x hx (atCreate_holds x hx')
@@ -340,7 +343,7 @@ theorem idle_of_wokeFrom {x y : Thread} (h : WokeFrom x y) (hx : idleW x = true)
   · rw [e, idleW_wake]; exact hx
 
 theorem sizeInv_step (cfg : Cfg) (s : St) (c : Choice) (hA : AllInv s) (hI : SizeInv cfg s) : SizeInv cfg (step cfg s c) := by
-  obtain ⟨pc0, r0, h0, _⟩ := hA.main
+  obtain ⟨pc0, r0, h0⟩ := hA.c.main0
   have hm0 : isMain (.main pc0 r0) = true := rfl
   -- the other threads of the list after a step, when the pool is quiet during construction
   have others_idle : ∀ (l : List Thread) (t : Tid) (th' : Thread) (post : Post), ThreadsStep s.thr l t th' post →
@@ -373,7 +376,7 @@ theorem sizeInv_step (cfg : Cfg) (s : St) (c : Choice) (hA : AllInv s) (hI : Siz
       | sub x => simp [isAsleep] at ha
     have ne : t ≠ 0 := by intro e; rw [e, h0] at hget; have := Option.some.inj hget; rw [hth] at this; cases this
     have hts := threadsStep_of_set s.thr t th (wake th b) hget
-    refine sizeInv_of_eff cfg s s.sh t th (wake th b) .none 0 _ hI hA.mutex _ h0 hm0 hget (fun e => absurd e ne)
+    refine sizeInv_of_eff cfg s s.sh t th (wake th b) .none 0 _ hI hA.mutex _ h0 hm0 hget (by rw [hth]; rfl) (fun e => absurd e ne)
       (fun _ => by rw [hth]; rfl) ?_
       (.quiet (SameQ.rfl' _) (fun nt e => by cases e) (by rw [hth]; rfl) (by rw [hth]; rfl) (by simp) (by simp) (by simp) (by simp)
         (by rw [hth]; intro e; simp [wake] at e)) hts (fun nt e => by cases e)
@@ -397,7 +400,7 @@ theorem sizeInv_step (cfg : Cfg) (s : St) (c : Choice) (hA : AllInv s) (hI : Siz
       · rw [hwr]
         exact .quiet hq (fun nt e => by cases e) (by rw [hth]; rfl) rfl (by rw [hth]; rfl) (by rw [hth]; rfl) (by rw [hth]; rfl)
           (by rw [hth]; rfl) (by intro e; cases e)
-    refine sizeInv_of_eff cfg s _ t th _ .none 0 _ hI hA.mutex _ h0 hm0 hget (fun e => absurd e ne)
+    refine sizeInv_of_eff cfg s _ t th _ .none 0 _ hI hA.mutex _ h0 hm0 hget (by rw [hth]; rfl) (fun e => absurd e ne)
       (fun _ => by rw [hth]; rfl) ?_ heff hts (fun nt e => by cases e)
     intro th0' h0' hic
     rw [thread0_after _ t _ _ hts ne th0' h0'] at hic
@@ -411,7 +414,7 @@ theorem sizeInv_step (cfg : Cfg) (s : St) (c : Choice) (hA : AllInv s) (hI : Siz
     · -- the controller
       have hth : th = .main pc0 r0 := by rw [e, h0] at hget; exact (Option.some.inj hget).symm
       have hc := transM_ctor cfg s.sh s.thr.length t pc0 r0 alt (by have := hI.cok _ h0; exact this)
-      refine sizeInv_of_eff cfg s _ t th _ _ alt l hI hA.mutex _ h0 hm0 hget ?_ (fun ne => absurd e ne) ?_
+      refine sizeInv_of_eff cfg s _ t th _ _ alt l hI hA.mutex _ h0 hm0 hget (hA.c.nors t th hget) ?_ (fun ne => absurd e ne) ?_
         (trans_eff cfg s.sh s.thr.length t th alt) hts (fun nt e => trans_spawn cfg s.sh s.thr.length t th alt nt e)
       · intro _; rw [hth]; exact ⟨hc.1, hc.2.1⟩
       · intro th0' h0' hic
@@ -428,15 +431,14 @@ theorem sizeInv_step (cfg : Cfg) (s : St) (c : Choice) (hA : AllInv s) (hI : Siz
         apply others_idle l t _ _ hts q3 (fun ne => absurd e ne)
         intro nt hnt; rw [hth] at hnt; exact hq.2.2 nt hnt
     · -- another thread
-      have hnm : isMain th = false := by
-        cases hm : isMain th with
-        | false => rfl
-        | true => exact absurd (hA.w.oneMain t th hget hm) e
-      refine sizeInv_of_eff cfg s _ t th _ _ alt l hI hA.mutex _ h0 hm0 hget (fun e0 => absurd e0 e) ?_ ?_
+      refine sizeInv_of_eff cfg s _ t th _ _ alt l hI hA.mutex _ h0 hm0 hget (hA.c.nors t th hget) (fun e0 => absurd e0 e) ?_ ?_
         (trans_eff cfg s.sh s.thr.length t th alt) hts (fun nt e => trans_spawn cfg s.sh s.thr.length t th alt nt e)
       · intro _
         cases th with
-        | main pc r => simp [isMain] at hnm
+        | main pc r =>
+          cases hcp : ctorPc pc with
+          | true => exact absurd (hA.c.ctorZero t pc r hget hcp) e
+          | false => cases pc <;> simp [ctorPc] at hcp <;> rfl
         | sub x => rfl
         | worker x => rfl
       · intro th0' h0' hic
@@ -453,12 +455,12 @@ theorem sizeInv_step (cfg : Cfg) (s : St) (c : Choice) (hA : AllInv s) (hI : Siz
           · intro _; simp only [trans]; exact hw.2.2.1
           · intro nt hnt; simp only [trans] at hnt; rw [hw.2.2.2] at hnt; cases hnt
 
-theorem sizeInv_run (cfg : Cfg) (hdet : cfg.detached = false) (hmax : 1 ≤ cfg.maxSize) (hinit : cfg.initialSize ≤ cfg.maxSize)
+theorem sizeInv_run (cfg : Cfg) (hdet : cfg.detached = false) (hr : cfg.allowRestart = false)
     (sched : List Choice) : SizeInv cfg (run cfg sched) := by
   have : AllInv (run cfg sched) ∧ SizeInv cfg (run cfg sched) := by
-    apply inv_run cfg (fun s => AllInv s ∧ SizeInv cfg s) ⟨allInv_init cfg, sizeInv_init cfg hinit⟩
+    apply inv_run cfg (fun s => AllInv s ∧ SizeInv cfg s) ⟨allInv_init cfg, sizeInv_init cfg⟩
     intro s c ⟨h1, h2⟩
-    exact ⟨allInv_step cfg hdet hmax s c h1, sizeInv_step cfg s c h1 h2⟩
+    exact ⟨allInv_step cfg hdet hr s c h1, sizeInv_step cfg s c h1 h2⟩
   exact this.2
 
 end Iora.ThreadPool
